@@ -178,6 +178,54 @@ def rule_X3(P, rep):
     locks.check_wrapper_summaries(P, rep, "X3")
 
 
+# functions that intentionally return with a different lockset than they were entered with: one
+# named symbol each, with the reason (confirmed by reading the code)
+X4_EXCEPTIONS = {
+    "ABT_barrier_free": "takes the lock to let a concurrent last waiter leave, then destroys the object (never releases)",
+    "ABT_eventual_free": "takes the lock to let a concurrent setter leave, then destroys the object",
+    "ABT_future_free": "takes the lock to let a concurrent setter leave, then destroys the object",
+    "ABTI_cond_fini": "takes the lock to let a concurrent signaller leave, then the condition is destroyed",
+    "ABTI_mutex_fini": "takes waiter_lock to let a concurrent unlocker leave, then the mutex is destroyed",
+    "ABTI_mutex_lock_no_recursion": "ABTI_mutex::lock is the user-visible mutex word: held on return by contract (C04.R2)",
+    "ABTI_mutex_trylock_no_recursion": "returns holding the mutex word iff it returns ABT_SUCCESS (C04.R5)",
+    "ABTI_mutex_spinlock_no_recursion": "returns holding the mutex word by contract (C04.R5)",
+    "ABTI_mutex_unlock_no_recursion": "releases the mutex word its caller holds by contract (C04.R1)",
+    "ABTI_ythread_callback_suspend_unlock": "releases the lock handed over by ABTI_ythread_suspend_unlock (summary checked by X3)",
+}
+X4_DOC = ("repository-wide lock balance: every function that uses a lock primitive returns with the lockset it was entered "
+          "with and never re-acquires a held lock or releases one it does not hold (named exceptions: destroy-after-lock, "
+          "the mutex word itself, the hand-over callback)")
+
+
+def rule_X4(P, rep):
+    """Thorough-tier sweep over every function of the library that touches a lock primitive."""
+    prims = set(tables.LOCK_ACQUIRE) | set(tables.LOCK_RELEASE) | set(tables.LOCK_RELEASE_TRANSFER) | set(tables.LOCK_COND_ACQUIRE)
+    n = 0
+    seen_exc = set()
+    for F in sorted(P.functions.values(), key=lambda f: (f.file, f.line)):
+        if not F.blocks or F.name in prims:
+            continue
+        if not any(F.nodes[i].get("fn") in prims for _b, i in F.calls()):
+            continue
+        ts = locks.run_locks(P, F)
+        unb = sorted(set(tuple(sorted(h)) for k, nid, h, rv in ts.exits if k == "ret" and h))
+        errs = sorted(set("%s at %s" % (m, F.loc(i)) for i, m in ts.errors))
+        if F.name in X4_EXCEPTIONS:
+            seen_exc.add(F.name)
+            rep.ob("X4", "%s is a named exception: %s" % (F.name, X4_EXCEPTIONS[F.name]), bool(unb or errs),
+                   "the function is balanced now: remove it from the exception table", loc="%s:%d" % (F.file, F.line),
+                   site="X4/exception/" + F.name)
+            continue
+        n += 1
+        why = []
+        if unb:
+            why.append("returns holding %s" % (unb,))
+        why.extend(errs)
+        rep.ob("X4", "%s: locks balanced on every path" % F.name, not why, "; ".join(why)[:500],
+               loc="%s:%d" % (F.file, F.line), site="X4/" + F.name)
+    rep.need(n >= 40, "only %d functions using lock primitives were analysed" % n)
+
+
 def run_shared(P, rep, which=("X1", "X2", "X3")):
     if "X1" in which:
         rule_X1(P, rep)
@@ -185,6 +233,8 @@ def run_shared(P, rep, which=("X1", "X2", "X3")):
         rule_X2(P, rep)
     if "X3" in which:
         rule_X3(P, rep)
+    if "X4" in which:
+        rule_X4(P, rep)
 
 
 SHARED_DOC = {
